@@ -34,7 +34,7 @@ FIELD_NAMES = ['alpha', 'beta_val', 'gamma2', 'delta_my_key', 'eps', 'zeta_aa9',
 def leaf(l): return {'k': 'leaf', 'l': l}
 def seq(kind, t): return {'k': 'seq', 'kind': kind, 't': t}
 def tup(*ts): return {'k': 'tuple', 'ts': list(ts)}
-def dct(kt, vt, dd=False): return {'k': 'dict', 'dd': dd, 'kt': kt, 'vt': vt}
+def dct(kt, vt, dd=False, od=False): return {'k': 'dict', 'dd': dd, 'od': od, 'kt': kt, 'vt': vt}
 def opt(t): return {'k': 'opt', 't': t}
 def optr(t): return {'k': 'optr', 't': t}     # Union[None, T]: None listed FIRST
 def union(*ts): return {'k': 'union', 'ts': list(ts)}
@@ -149,7 +149,8 @@ def py_ann(t, model, defined=None):
     if k == 'tuple':
         return 'tuple[%s]' % ', '.join(py_ann(x, model, defined) for x in t['ts'])
     if k == 'dict':
-        return '%s[%s, %s]' % ('defaultdict' if t['dd'] else 'dict', py_ann(t['kt'], model, defined), py_ann(t['vt'], model, defined))
+        return '%s[%s, %s]' % ('defaultdict' if t['dd'] else 'OrderedDict' if t.get('od') else 'dict',
+                               py_ann(t['kt'], model, defined), py_ann(t['vt'], model, defined))
     if k == 'opt':
         return 'Optional[%s]' % py_ann(t['t'], model, defined)
     if k == 'optr':
@@ -162,6 +163,8 @@ def py_ann(t, model, defined=None):
         return t['name']
     if k == 'data':
         n = model['classes'][t['c']]['name']
+        if model.get('ann_style') == 'fwd':
+            return repr(n)                    # every dataclass reference is a forward reference (string)
         return n if defined is not None and n in defined else repr(n)       # forward reference
     raise ValueError(k)
 
@@ -169,12 +172,13 @@ def py_ann(t, model, defined=None):
 PREAMBLE = '''from __future__ import annotations
 from dataclasses import dataclass, field
 from typing import *
-from collections import defaultdict, deque
+from collections import defaultdict, deque, OrderedDict
 from datetime import date, time, datetime, timedelta
 from decimal import Decimal
 from pathlib import Path
 from uuid import UUID
 from enum import Enum
+from dataclass_wizard.v1 import Alias, AliasPath
 class Color(Enum):
     RED = 'r'
     GREEN = 'g'
@@ -188,6 +192,22 @@ class Num(Enum):
 DEFAULT_SRC = {'none': ' = None', 'int0': ' = 0', 'str0': " = ''", 'list': ' = field(default_factory=list)',
                'dict': ' = field(default_factory=dict)'}
 DEFAULT_TREE = {'none': ['N'], 'int0': ['I', '0'], 'str0': ['S', ''], 'list': ['L', []], 'dict': ['D', None, []]}
+
+
+DEFAULT_EXPR = {'none': 'None', 'int0': '0', 'str0': "''"}
+
+
+def field_rhs(f):
+    """right-hand side of a field declaration: plain / default / Alias(...) / AliasPath(...)"""
+    d = f.get('default')
+    if f.get('path') or f.get('alias'):
+        fn = 'AliasPath(%r' % f['path'] if f.get('path') else 'Alias(%s' % ', '.join(repr(a) for a in f['alias'])
+        if d is None:
+            return ' = %s)' % fn
+        if d in DEFAULT_EXPR:
+            return ' = %s, default=%s)' % (fn, DEFAULT_EXPR[d])
+        return ' = %s, default_factory=%s)' % (fn, d)
+    return DEFAULT_SRC.get(d, '')
 
 
 def class_order(model):
@@ -230,7 +250,7 @@ def helper_deps(model, kind, name):
 def model_source(model):
     """Python source of the model: NamedTuple / TypedDict / dataclass definitions in dependency
     order; only recursive references are forward-reference strings."""
-    out = [PREAMBLE.replace('from __future__ import annotations\n', '')]
+    out = [PREAMBLE if model.get('ann_style') == 'future' else PREAMBLE.replace('from __future__ import annotations\n', '')]
     defined = set()
     emitted = set()
     pending = [('named', n) for n in model['named']] + [('typed', n) for n in model['typed']] + \
@@ -261,7 +281,7 @@ def model_source(model):
             if not c['fields']:
                 out.append('    pass')
             for f in c['fields']:
-                out.append('    %s: %s%s' % (f['name'], py_ann(f['ty'], model, defined), DEFAULT_SRC.get(f.get('default'), '')))
+                out.append('    %s: %s%s' % (f['name'], py_ann(f['ty'], model, defined), field_rhs(f)))
             defined.add(c['name'])
         emitted.add(item)
 
@@ -334,7 +354,7 @@ def coq_ty(t, model):
     if k == 'tuple':
         return '(TTuple %s)' % coq_tys([('', x) for x in t['ts']], model)
     if k == 'dict':
-        dd = '(Some %s)' % cstr(dd_factory(t['vt'])) if t['dd'] else 'None'
+        dd = '(Some %s)' % cstr(dd_factory(t['vt'])) if t['dd'] else '(Some (S "OrderedDict"))' if t.get('od') else 'None'
         return '(TDict %s %s %s)' % (dd, coq_ty(t['kt'], model), coq_ty(t['vt'], model))
     if k == 'opt':
         return '(TOpt %s)' % coq_ty(t['t'], model)
@@ -342,6 +362,8 @@ def coq_ty(t, model):
         # faithful to the open defect F52: get_string_for_annotation takes args[0] (NoneType) as THE member
         return '(TOpt (TLeaf LNone))'
     if k == 'union':
+        if any(x['k'] == 'data' for x in t['ts']):
+            raise ValueError('tagged Union of dataclasses is outside the Gallina model')
         return '(TUnion %s)' % coq_tys([('', x) for x in t['ts']], model)
     if k == 'lit':
         return '(TLit %s)' % clist([coq_lit(v) for v in t['vs']])
@@ -363,7 +385,7 @@ def dd_factory(vt):
     if k == 'seq':
         return vt['kind']
     if k == 'dict':
-        return 'defaultdict' if vt['dd'] else 'dict'
+        return 'defaultdict' if vt['dd'] else 'OrderedDict' if vt.get('od') else 'dict'
     if k == 'tuple':
         return 'tuple'
     return k
@@ -402,7 +424,11 @@ def coq_ct(model, keys):
     cls = []
     for c in model['classes']:
         fs = []
+        if c.get('meta'):
+            raise ValueError('per-class Meta is outside the Gallina model')
         for f in c['fields']:
+            if f.get('path') or f.get('alias'):
+                raise ValueError('Alias / AliasPath fields are outside the Gallina model')
             k = keys[c['name']][f['name']]
             d = f.get('default')
             fs.append('{| f_name := %s; f_ty := %s; f_default := %s; f_keys := %s; f_dkey := %s |}' % (
@@ -826,3 +852,123 @@ def coq_shards(workdir, imports, shards, jobs=8, timeout=900):
         for idx, out in ex.map(one, list(enumerate(shards))):
             res[idx] = out
     return [res[i] for i in range(len(shards))]
+
+# ======================================================================== reference wire format
+import base64 as _b64, datetime as _dt
+TAG_KEY = '__tag__'
+
+
+# ---------------------------------------------------------------------------------- key spellings (reference)
+def _cap(w):
+    return w[0].upper() + w[1:]
+
+
+def spellings(name):
+    """documented spellings of a canonical snake_case field name"""
+    ws = name.split('_')
+    return {'SNAKE': name, 'CAMEL': ws[0] + ''.join(_cap(w) for w in ws[1:]), 'PASCAL': ''.join(_cap(w) for w in ws),
+            'KEBAB': '-'.join(ws), 'UKEBAB': '-'.join(_cap(w) for w in ws), 'USNAKE': '_'.join(_cap(w) for w in ws),
+            'SCREAMING': name.upper()}
+
+
+def doc_key(name, kc, r):
+    if kc is None:
+        return name
+    if kc == 'AUTO':
+        return spellings(name)[r.choice(['SNAKE', 'CAMEL', 'PASCAL', 'KEBAB'])]
+    return spellings(name)[kc]
+
+
+def field_of_key(cd, key):
+    """the field a document key was written for (any documented spelling, alias, or top of its path)"""
+    for f in cd['fields']:
+        if f.get('path'):
+            if key == f['path'].split('.')[0]:
+                return f
+        elif f.get('alias'):
+            if key in f['alias']:
+                return f
+        elif key == f['name'] or key in spellings(f['name']).values():
+            return f
+    return None
+
+
+def maybe_accepted(name, kc, key):
+    if kc is None:
+        return key == name
+    if kc == 'AUTO':
+        return key == name or key in spellings(name).values()
+    return key == spellings(name)[kc]
+
+
+# ---------------------------------------------------------------------------------- reference wire format
+def _td_str(tok):
+    d, s, us = (int(x) for x in tok.split(','))
+    return str(_dt.timedelta(days=d, seconds=s, microseconds=us))
+
+
+def dump_doc(v, t, model, r):
+    """JSON document of a conforming value (transcribed from the documented wire encoding)"""
+    k = t['k']
+    kc = model.get('key_case')
+    if k == 'leaf':
+        l = t['l']
+        if v[0] == 'Y' or v[0] == 'A':
+            return ['S', _b64.b64encode(bytes.fromhex(v[1])).decode()]
+        if v[0] == 'O':
+            tok = v[2]
+            if l == 'uuid':
+                return ['S', tok.replace('-', '')]
+            if l in ('decimal', 'path', 'date'):
+                return ['S', tok]
+            if l in ('time', 'datetime'):
+                return ['S', tok[:-6] + 'Z' if tok.endswith('+00:00') else tok]
+            if l == 'timedelta':
+                return ['S', _td_str(tok)]
+            if l.startswith('enum:'):
+                val = dict(ENUMS[l[5:]])[tok]
+                return ['I', str(val)] if isinstance(val, int) else ['S', val]
+        return v
+    if k == 'seq':
+        return ['L', [dump_doc(x, t['t'], model, r) for x in v[1]]]
+    if k == 'tuple':
+        return ['L', [dump_doc(x, tt, model, r) for x, tt in zip(v[1], t['ts'])]]
+    if k == 'dict':
+        return ['D', None, [[dump_doc(kk, t['kt'], model, r), dump_doc(x, t['vt'], model, r)] for kk, x in v[2]]]
+    if k == 'opt':
+        return v if v == ['N'] else dump_doc(v, t['t'], model, r)
+    if k == 'lit':
+        return v
+    if k == 'union':
+        if v[0] == 'C':          # tagged dataclass member
+            alt = [x for x in t['ts'] if x['k'] == 'data' and model['classes'][x['c']]['name'] == v[1]][0]
+            d = dump_doc(v, alt, model, r)
+            return ['D', None, [[['S', TAG_KEY], ['S', v[1]]]] + d[2]]
+        if v[0] == 'L':
+            alt = [x for x in t['ts'] if x['k'] == 'seq'][0]
+            return dump_doc(v, alt, model, r)
+        return v
+    if k == 'named':
+        return ['L', [dump_doc(x, tt, model, r) for x, (_, tt) in zip(v[2], model['named'][t['name']])]]
+    if k == 'typed':
+        d = model['typed'][t['name']]
+        tys = dict((key, tt) for key, tt in d['req'] + d['opt'])
+        return ['D', None, [[kk, dump_doc(x, tys[kk[1]], model, r)] for kk, x in v[2]]]
+    if k == 'data':
+        cd = model['classes'][t['c']]
+        fs = {f['name']: f for f in cd['fields']}
+        items = []
+        for n, x in v[2]:
+            f = fs[n]
+            val = dump_doc(x, f['ty'], model, r)
+            if f.get('path'):
+                top, inner = f['path'].split('.')
+                items.append([['S', top], ['D', None, [[['S', inner], val]]]])
+            elif f.get('alias'):
+                items.append([['S', f['alias'][0]], val])
+            else:
+                items.append([['S', doc_key(n, kc, r)], val])
+        return ['D', None, items]
+    raise ValueError(k)
+
+
